@@ -87,5 +87,23 @@ fn vk_{short}_clone_deep<const P: usize>() {{
 // @harness vk_{short}_clone_deep_p2 props=C05 kind=bounded(period=2) tier=quick
 #[kani::proof] #[kani::unwind(6)] fn vk_{short}_clone_deep_p2() {{ vk_{short}_clone_deep::<2>() }}
 '''
+    zero_ = ''.join('    assert!(b.%s.to_bits() == 0.0f64.to_bits());' % f + chr(10) for f in flds)
+    out += f'''
+// no hidden state shared between instances: after another instance of the same period was used (past a wrap-around) and
+// dropped, a new instance starts from exactly the documented initial state (all-zero window, zero cursors)
+fn vk_{short}_fresh_after_other<const P: usize, const K: usize>() {{
+    {{
+        let mut a = {ty}::new(P).unwrap();
+        let mut i = 0;
+        while i < K {{ {feed.replace('ind.', 'a.')} i += 1; }}
+    }}
+    let b = {ty}::new(P).unwrap();
+    assert!(b.index == 0 && b.count == 0 && b.period == P && b.deque.len() == P);
+{zero_}    let mut j = 0;
+    while j < P {{ assert!(b.deque[j].to_bits() == 0.0f64.to_bits()); j += 1; }}
+}}
+// @harness vk_{short}_fresh_after_other_p2 props=C05 kind=bounded(period=2,history=3) tier=quick
+#[kani::proof] #[kani::unwind(6)] fn vk_{short}_fresh_after_other_p2() {{ vk_{short}_fresh_after_other::<2, 3>() }}
+'''
     open(os.path.join(here, mod + '.rs'), 'w').write(out)
     print(mod)
